@@ -203,7 +203,7 @@ def run(chk):
     chains = [c[0] for c in parse_prints(r["out"], "CHAIN")]
     if len(chains) < 200:
         raise MachineryError("TLC emitted only %d calculator behaviours" % len(chains))
-    parts = pmap(_chain_events, [(chains[i::32], i) for i in range(32)])
+    parts = pmap(_chain_events, [(chains[i::32], i) for i in range(32)], empty=lambda: ([], [], 0, 0, []))
     chk.extra["calculator_behaviours_replayed"] = len(chains)
     chk.extra["algo_fidelity"] = {"real_steps": sum(p[2] for p in parts), "identical_to_transcribed_algorithm":
                                   sum(p[3] for p in parts), "divergent_examples": [d for p in parts for d in p[4]][:5]}
